@@ -496,6 +496,17 @@ def run(ck):
         ck.floor('R-COUNT', len(exp), 21)
     for key, ok, why, sample in d2_structure(facts):
         ck.ob('R-TABLE-seq', 'push_basic_gates/' + key, ok, ck.site('gate::Gate::push_basic_gates'), why, sample=sample)
+    tb = ck.fn('circuit::Circuit::to_basic_gates')
+    tfors = hir.find(tb['hir'], 'For')
+    ok = len(tfors) == 1 and hir.plain_field_loop(tfors[0], 'self', 'gates')
+    if ok:
+        vid = [i for _n, i in hir.bindings(tfors[0]['pat'])]
+        ok = len(hir.unconditional_calls(hir.stmts_of(tfors[0]['body']), lambda c: hir.callee(c) == 'gate::Gate::push_basic_gates' and hir.local(c['recv']) and hir.local(c['recv'])[1] in vid)) == 1
+    ck.ob('R-EFFECT', 'circuit::Circuit::to_basic_gates/every-gate-in-order', ok, ck.site('circuit::Circuit::to_basic_gates'),
+          'to_basic_gates must expand every gate of self.gates, in order, unconditionally')
+    nq = [n for n in hir.nodes(tb['hir']) if n.get('k') == 'Struct' and n['ctor'].get('path') == 'circuit::Circuit']
+    ok = len(nq) == 1 and any(fn == 'nqubits' and hir.strip(e).get('k') == 'Field' and hir.strip(e)['name'] == 'nqubits' and hir.local_name(hir.strip(e)['e']) == 'self' for fn, e in nq[0]['fields'])
+    ck.ob('R-EFFECT', 'circuit::Circuit::to_basic_gates/same-qubits', ok, ck.site('circuit::Circuit::to_basic_gates'), 'the expanded circuit must have self.nqubits qubits')
     em = emitted_kinds(facts, ['gate::Gate::push_basic_gates', 'gate::Gate::push_ccz_decomp'])
     for i, (key, kind, node) in enumerate(em):
         ck.ob('R-EMIT-basic', '%s/site-%d' % (key, i), kind in G.BASIC, ck.site(key, node),
@@ -519,6 +530,9 @@ def run(ck):
                   'path %s increments size counters %s and class counters %s (need exactly one of each, by one)' % (p.cond_texts(), size, cls),
                   sample={'conds': p.cond_texts(), 'size': size, 'class': cls})
         ck.floor('R-PARTITION', len(res), 12)
+    mfors = hir.find(mk['hir'], 'For')
+    ck.ob('R-PARTITION', 'all-gates', len(mfors) == 1 and hir.plain_field_loop(mfors[0], 'c', 'gates'), ck.site('circuit::CircuitStats::make'),
+          'the statistics loop must visit every gate of the circuit (plain iteration over c.gates)')
     st = d4_size_table(mk)
     ck.ob('R-PARTITION', 'size-table', st == {'1': ['oneq'], '2': ['twoq'], '_': ['moreq']}, ck.site('circuit::CircuitStats::make'),
           'qubit-count table is %s, expected 1->oneq, 2->twoq, other->moreq' % st, sample={'table': str(st)})
